@@ -680,7 +680,9 @@ private:
             return string_view{};
         }
 
-        std::size_t size = static_cast<std::size_t>(len) - static_cast<std::size_t>(1);
+        // Read the string together with its terminating byte: the span may point into the source's own
+        // buffer, which a further read would be free to overwrite before the caller has used the string.
+        std::size_t size = static_cast<std::size_t>(len);
         auto data = source_.read_span(size, text_buffer_);
         if (JSONCONS_UNLIKELY(data.size() != size))
         {
@@ -690,17 +692,8 @@ private:
         }
         offset += data.size();
 
-        uint8_t c;
-        if (JSONCONS_UNLIKELY(source_.read(&c, 1) != 1))
-        {
-            ec = bson_errc::unexpected_eof;
-            more_ = false;
-            return string_view{};
-        }
-        ++offset;
-
         state_stack_.back().pos += offset;
-        return string_view{reinterpret_cast<const char*>(data.data()), data.size()};
+        return string_view{reinterpret_cast<const char*>(data.data()), data.size() - 1};
     }
 };
 
